@@ -16,6 +16,12 @@ RULE = ("streams of calls (motif name, graph, root, substitution for phi and for
         "integer constant (passed as Poly, int or float); quick: every labelled graph on <= 4 vertices x every root "
         "(connected or not, isolated vertices included) + a seeded sample of 5-vertex graphs + random connected graphs "
         "with 6-7 arbitrarily labelled vertices and <= 11 edges; thorough: every graph on <= 5 vertices x every root; "
+        "BLOCK FAMILY (183 graphs on 5-9 vertices: chains of 2-3 two-connected blocks -- triangle, 4-cycle, K4, diamond -- "
+        "joined by a cut vertex, a bridge or a path through one extra vertex, attachment points over the orbit "
+        "representatives of the blocks, i.e. graphs whose edge / vertex connectivity is below their minimum degree): all "
+        "with <= 9 edges x every root, all with 10 (thorough: 10-11) edges x one root per position class (degree, "
+        "neighbour degrees, distance profile), a seeded sample of 6+2 with 11-12 (thorough 16+6 with 12-13) edges x two "
+        "position classes, half of them relabelled; the three smallest (two triangles joined by a bridge / a path) in the corpus; "
         "same-named motif re-evaluated with other roots / phi / u later in the stream, in half of the streams on the SAME "
         "networkx object with only the u attributes re-installed; graphs carry node / edge / graph attributes and are "
         "compared before/after every call (data and iteration order); in 40% of the streams a second (decoy) evaluator is "
@@ -137,12 +143,16 @@ def _call(name, nodes, edges, root, sub):
             "phi": sub["phi"], "u": sub["u"]}
 
 
-def _stream(rng, graphs, all_roots=True, extra_subs=1, bad_roots=False):
+def _stream(rng, graphs, all_roots=True, extra_subs=1, bad_roots=False, roots_of=None):
     """graphs: list of (nodes, edges).  Every graph gets a distinct name; calls (graph, root) are interleaved in a
-    shuffled order; some are repeated later with another substitution (same name: cache hits)."""
+    shuffled order; some are repeated later with another substitution (same name: cache hits).
+    roots_of(nodes, edges) -> roots to use (default: all / one random)."""
     calls = []
     for name, (nodes, edges) in enumerate(graphs):
-        roots = list(nodes) if all_roots else [rng.choice(nodes)]
+        if roots_of is not None:
+            roots = roots_of(nodes, edges)
+        else:
+            roots = list(nodes) if all_roots else [rng.choice(nodes)]
         for r in roots:
             calls.append(_call(name, nodes, edges, r, _ident_sub(nodes)))
             for _ in range(extra_subs):
@@ -197,6 +207,114 @@ BOWTIE = ([5, 1, 9, 3, 7], [[5, 1], [1, 9], [9, 5], [9, 3], [3, 7], [7, 9]])
 HOUSE = ([0, 1, 2, 3, 4, 5], [[0, 1], [1, 2], [2, 3], [3, 0], [0, 4], [1, 4], [4, 5]])
 
 
+# ----------------------------------------------------------------- structured family: blocks joined by bridges
+# 2-3 two-connected blocks (triangle, 4-cycle, K4, diamond) in a chain, consecutive blocks joined by a shared CUT
+# VERTEX ('c'), a BRIDGE edge ('b') or a PATH through one extra vertex ('p'); the attachment vertices run over the
+# orbit representatives of the blocks' automorphism groups (vertices for the end blocks, ordered vertex pairs for the
+# middle block), so every way of hanging the blocks together occurs once.  These are the graphs whose edge / vertex
+# connectivity is BELOW their minimum degree (C15-r3-2: a shortcut that is right for every graph on <= 5 vertices and
+# for 111 of the 112 connected 6-vertex graphs); uniformly random 6-7 vertex graphs almost never look like this.
+_BLOCKS = {
+    "T": (3, [(0, 1), (1, 2), (0, 2)]),
+    "C4": (4, [(0, 1), (1, 2), (2, 3), (3, 0)]),
+    "K4": (4, _all_pairs(4)),
+    "D": (4, [(0, 1), (0, 2), (1, 2), (1, 3), (2, 3)]),
+}
+
+
+def _orbit_reps(k, es):
+    E = {frozenset(e) for e in es}
+    auts = [p for p in itertools.permutations(range(k)) if all(frozenset((p[a], p[b])) in E for a, b in es)]
+    seen, vs = set(), []
+    for v in range(k):
+        if v not in seen:
+            vs.append(v)
+            seen |= {p[v] for p in auts}
+    seen, ps = set(), []
+    for a in range(k):
+        for b in range(k):
+            if (a, b) not in seen:
+                ps.append((a, b))
+                seen |= {(p[a], p[b]) for p in auts}
+    return vs, ps
+
+
+def _chain(seq, att, joins):
+    nodes, edges, nxt, prev_out = [], [], 0, None
+    for i, nm in enumerate(seq):
+        k, es = _BLOCKS[nm]
+        vin, vout = att[i]
+        mp = {}
+        if i > 0 and joins[i - 1] == "c":
+            mp[vin] = prev_out
+        for v in range(k):
+            if v not in mp:
+                mp[v] = nxt
+                nodes.append(nxt)
+                nxt += 1
+        edges += [[mp[a], mp[b]] for a, b in es]
+        if i > 0 and joins[i - 1] == "b":
+            edges.append([prev_out, mp[vin]])
+        if i > 0 and joins[i - 1] == "p":
+            nodes.append(nxt)
+            edges += [[prev_out, nxt], [nxt, mp[vin]]]
+            nxt += 1
+        prev_out = mp.get(vout)
+    return nodes, edges
+
+
+_FAMILY = []
+
+
+def block_family(maxn=9):
+    """all chains of 2-3 blocks on <= maxn vertices, sorted by number of edges (183 graphs for maxn = 9)"""
+    if _FAMILY:
+        return _FAMILY
+    names = list(_BLOCKS)
+    reps = {n: _orbit_reps(*_BLOCKS[n]) for n in names}
+    out = []
+    for m in (2, 3):
+        for seq in itertools.product(names, repeat=m):
+            if names.index(seq[0]) > names.index(seq[-1]):
+                continue        # the reversed chain is the same graph
+            for joins in itertools.product("cbp", repeat=m - 1):
+                if m == 2:
+                    atts = [[(None, a), (b, None)] for a in reps[seq[0]][0] for b in reps[seq[1]][0]]
+                else:
+                    atts = [[(None, a), (b, c), (d, None)] for a in reps[seq[0]][0]
+                            for (b, c) in reps[seq[1]][1] for d in reps[seq[2]][0]]
+                for att in atts:
+                    ns, es = _chain(seq, att, joins)
+                    if len(ns) <= maxn:
+                        out.append((ns, es))
+    out.sort(key=lambda g: (len(g[1]), len(g[0])))
+    _FAMILY.extend(out)
+    return _FAMILY
+
+
+def _root_classes(nodes, edges):
+    """vertices grouped by a cheap position invariant (degree, neighbours' degrees, distance profile): a refinement-free
+    stand-in for the orbits of the automorphism group (never merges vertices of different degree / eccentricity)"""
+    adj = {v: set() for v in nodes}
+    for a, b in edges:
+        adj[a].add(b)
+        adj[b].add(a)
+
+    def dist_profile(s):
+        d = {s: 0}
+        todo = [s]
+        for v in todo:
+            for w in adj[v]:
+                if w not in d:
+                    d[w] = d[v] + 1
+                    todo.append(w)
+        return tuple(sorted((d[w], len(adj[w])) for w in d))
+    cls = {}
+    for v in nodes:
+        cls.setdefault((len(adj[v]), tuple(sorted(len(adj[w]) for w in adj[v])), dist_profile(v)), []).append(v)
+    return list(cls.values())
+
+
 def corpus():
     out = []
     # one shared evaluator, the classic motifs, every root, heterogeneous u, then again with other phi / u
@@ -243,6 +361,10 @@ def corpus():
         calls.append(_call(name, nodes, edges, 0, {"phi": [1, 1, 0], "u": [[nodes[0], [0, 0, (name + 1) % 3]]]}))
     out.insert(0, {"calls": calls[:len(zero_late) * 2]})
     out.append({"calls": calls, "reuse": True, "decoy": True})
+    # the smallest members of the block family (edge connectivity 1 < minimum degree 2): two triangles joined by a
+    # bridge / by a path, every root
+    fam = [g for g in block_family() if len(g[1]) <= 8 and len(g[0]) >= 6][:3]
+    out.append({"calls": [_call(nm, ns, es, r, _ident_sub(ns)) for nm, (ns, es) in enumerate(fam) for r in ns]})
     return out
 
 
@@ -267,6 +389,38 @@ def generate(rng, tier):
         for _ in range(30):
             gs = [(list(range(5)), rng.choice(five)) for _ in range(3)]
             yield _stream(rng, gs, all_roots=rng.random() < 0.5, extra_subs=1)
+    # (2b) the block family (5-9 vertices, 2-3 blocks joined by cut vertices / bridges / paths): connectivity below the
+    #      minimum degree.  Cost is driven by 2^edges, so: <= 9 edges every root; 10 edges (thorough: 10-11) one root per
+    #      position class; above that a seeded sample with two position classes each.
+    fam = block_family()
+
+    def class_roots(ns, es):
+        return [rng.choice(c) for c in _root_classes(ns, es)]
+
+    def two_classes(ns, es):
+        cl = _root_classes(ns, es)
+        return [rng.choice(c) for c in rng.sample(cl, min(2, len(cl)))]
+
+    def lab(g):
+        return _relabel(rng, *g) if rng.random() < 0.5 else g
+
+    def with_edges(m):
+        return [g for g in fam if len(g[1]) == m]
+    small = [g for g in fam if len(g[1]) <= 9]
+    if tier == "quick":
+        mid = with_edges(10)
+        big = rng.sample(with_edges(11), 6) + rng.sample(with_edges(12), 2)
+    else:
+        mid = with_edges(10) + with_edges(11)
+        big = rng.sample(with_edges(12), 16) + rng.sample(with_edges(13), 6)
+    rng.shuffle(small)
+    rng.shuffle(mid)
+    for i in range(0, len(small), 3):
+        yield _stream(rng, [lab(g) for g in small[i:i + 3]], all_roots=True, extra_subs=1)
+    for i in range(0, len(mid), 2):
+        yield _stream(rng, [lab(g) for g in mid[i:i + 2]], extra_subs=1, roots_of=class_roots)
+    for g in big:
+        yield _stream(rng, [lab(g)], extra_subs=1, roots_of=two_classes)
     # (3) random connected motifs with 6-7 arbitrarily labelled vertices, <= 11 edges
     nbig = 25 if tier == "quick" else 250
     for _ in range(nbig):
